@@ -98,25 +98,57 @@ DomC06(s, n) ==
               => s.cabData[c].k = NoVal
 VCables(s, d) ==      \* a constant net exists in a module only when something is tied to it
     {c \in SeqSet(s.defCables[d]) : ~IsConstCable(s, c) \/ \E w \in SeqSet(s.cabWires[c]) : s.wirePins[w] # <<>>}
+AssignInsts(s, d) == {i \in SeqSet(s.defKids[d]) : s.instRef[i] # None /\ IsAssignDef(s, s.instRef[i])}
+WireName(s, w) ==     \* <<net name, bit position>> of a wire, or <<"", 0>> for none
+    IF w = None \/ s.wireCable[w] = None THEN <<"", 0>>
+    ELSE <<StripEsc(s.cabData[s.wireCable[w]].name), IndexIn(s.cabWires[s.wireCable[w]], w) - 1>>
 VCell(s, d) ==
     [name |-> StripEsc(s.defData[d].name),
      ports |-> [j \in DOMAIN s.defPorts[d] |-> PortCanon(s, s.defPorts[d][j])],
      insts |-> {VInst(s, i) : i \in {ii \in SeqSet(s.defKids[d]) : s.instRef[ii] = None \/ ~IsAssignDef(s, s.instRef[ii])}},
      nattr |-> {<<StripEsc(s.cabData[c].name), VAttrOf(s.cabData[c], FALSE)>> : c \in VCables(s, d)},
+     \* an assign statement is an instance of SDN_VERILOG_ASSIGNMENT_<width>: its pins appear on the nets under the
+     \* anonymous instance name "<assign>", and the statements are counted per width
      nets  |-> {[NetCanon(s, c, FALSE) EXCEPT !.name = StripEsc(@),
-                    !.bits = [k \in DOMAIN @ |-> {[e EXCEPT !.inst = StripEsc(@)] : e \in @[k]}]] : c \in VCables(s, d)}]
+                    !.bits = [k \in DOMAIN @ |->
+                                {LET r == pr IN
+                                 IF r.k = "o" /\ s.instRef[r.i] # None /\ IsAssignDef(s, s.instRef[r.i])
+                                 THEN [inst |-> "<assign>", port |-> EndpointOf(s, r).port, bit |-> 0]     \* which bit: see assigns
+                                 ELSE [inst |-> IF r.k = "o" THEN StripEsc(s.instData[r.i].name) ELSE "",
+                                       port |-> EndpointOf(s, r).port, bit |-> EndpointOf(s, r).bit]
+                                 : pr \in {x \in SeqSet(s.wirePins[s.cabWires[c][k]]) : x.k \in {"i", "o"}}}]]
+                  : c \in VCables(s, d)},
+     \* per assign statement width: how many; and the bit pairs joined (k-th pin of o with k-th pin of i)
+     assigns |-> [count |-> {<<nm, Cardinality({i \in SeqSet(s.defKids[d]) : s.instRef[i] # None /\ s.defData[s.instRef[i]].name = nm})>> :
+                                nm \in {s.defData[s.instRef[i]].name : i \in AssignInsts(s, d)}},
+                  pairs |-> UNION {{<<WireName(s, OPWire(s, i, PinsOfDef(s, s.instRef[i])[k + Len(PinsOfDef(s, s.instRef[i])) \div 2])),
+                                      WireName(s, OPWire(s, i, PinsOfDef(s, s.instRef[i])[k]))>> :
+                                        k \in 1..(Len(PinsOfDef(s, s.instRef[i])) \div 2)} : i \in AssignInsts(s, d)}]]
 VCanon(s, n) == [top |-> StripEsc(TopCanon(s, n).cell), cells |-> {VCell(s, d) : d \in VDefs(s, n)}]
 
+(* never-declared primitives: the reader infers a black box from the instances' named port maps (the ports that  *)
+(* are used, widths as connected, no directions).  The inferred cell itself is not compared - its instances, their *)
+(* module name and every bit they join are.                                                                        *)
+IsVLeaf(s, d) == s.defKids[d] = <<>> /\ \A c \in SeqSet(s.defCables[d]) : \E p \in SeqSet(s.defPorts[d]) : s.portData[p].name = s.cabData[c].name
+Undeclared(c) == "undeclared" \in DOMAIN c.opts /\ c.opts.undeclared
+WithoutCells(vc, names) == [vc EXCEPT !.cells = {x \in @ : x.name \notin names}]
 VlogReadClauses(pre, c, out, post, ret) ==
     IF c.op = "vlog_read" /\ DomC06(pre, c.n) THEN
+      LET omitted == IF Undeclared(c) THEN {StripEsc(pre.defData[d].name) : d \in {dd \in VDefs(pre, c.n) : IsVLeaf(pre, dd) /\ pre.defRefs[dd] # {}}}
+                     ELSE {} IN
       << <<"C06_Accepted", out = "ok">>,
-         <<"C06_Exact", (out = "ok" /\ Len(ret) = 1) => VCanon(post, ret[1]) = VCanon(pre, c.n)>>,
+         <<"C06_Exact", (out = "ok" /\ Len(ret) = 1) => WithoutCells(VCanon(post, ret[1]), omitted) = WithoutCells(VCanon(pre, c.n), omitted)>>,
          <<"C06_WF", (out = "ok" /\ Len(ret) = 1) => (WF(post) /\ SelfContained(post, ret[1]))>> >>
     ELSE <<>>
+(* an inferred black box has ports of undefined direction and no nets of its own; Verilog cannot say "undefined", *)
+(* the writer declares such ports inout: these cells themselves are not compared across a write-then-read step    *)
+(* (their instances and every bit they join are)                                                                   *)
+InferredCells(s, n) == {StripEsc(s.defData[d].name) : d \in {dd \in VDefs(s, n) : \E p \in SeqSet(s.defPorts[dd]) : s.portAttr[p].dir = 0}}
 VlogRtClauses(pre, c, out, post, ret, r) ==
     IF c.op = "vlog_rt" THEN
       << <<"C04_ReaderAccepts", out = "ok" /\ r.reader_accepts>>,
-         <<"C04_RoundTrip", (out = "ok" /\ r.reader_accepts /\ Len(ret) = 1) => VCanon(post, ret[1]) = VCanon(pre, c.n)>> >>
+         <<"C04_RoundTrip", (out = "ok" /\ r.reader_accepts /\ Len(ret) = 1) =>
+                WithoutCells(VCanon(post, ret[1]), InferredCells(pre, c.n)) = WithoutCells(VCanon(pre, c.n), InferredCells(pre, c.n))>> >>
     ELSE <<>>
 
 ---------------------------------------------------------------------------
